@@ -1,6 +1,7 @@
 (* C15 - lemmas about the hook semantics (Model/Hooks.v) and the sweep window (Model/Sweep.v). *)
 From Coq Require Import String ZifyBool.
 From Comdex Require Import Lib.Base Lib.Atomic Model.HookLang Gen.HookTable Model.Hooks Model.Sweep.
+From Comdex Require Model.Liquidation.
 Local Open Scope Z_scope.
 
 (* induction principle for the nested inductive [hook] *)
@@ -275,6 +276,37 @@ Lemma slice_panics_full_batch cap counter off batch : 0 <= counter <= batch -> b
   (slice_panics cap counter off batch = true <-> cap < counter).
 Proof.
   intros Hc Hb. rewrite slice_panics_iff by lia. rewrite sweep_window_full_batch by assumption. reflexivity.
+Qed.
+
+(* The repaired helper computes, on every int input, what the helper computes over unbounded
+   integers (the window C09's model Model/Liquidation.v uses): the int64 wrap-around no longer
+   shows.  Before fix C15-F2 this failed for off >= 1, off + batch > int_max. *)
+Lemma slice_bounds_unbounded len off batch :
+  len <= int_max -> off <= int_max -> batch <= int_max ->
+  slice_bounds len off batch = Comdex.Model.Liquidation.slice_bounds len off batch.
+Proof.
+  intros Hl Ho Hb. unfold slice_bounds, Comdex.Model.Liquidation.slice_bounds.
+  destruct (off >=? len) eqn:E1; cbn [orb]; [reflexivity|].
+  destruct (off <? 0) eqn:E2; cbn [orb]; [reflexivity|].
+  destruct (batch <? 0) eqn:E3; cbn [orb]; [reflexivity|].
+  destruct (Z_le_gt_dec (off + batch) int_max) as [Hs|Hs].
+  - rewrite wrap64_small by (unfold int_max in *; lia).
+    replace (off + batch <? off) with false by (symmetry; apply Z.ltb_ge; lia).
+    rewrite orb_false_r. reflexivity.
+  - rewrite wrap64_over by (unfold int_max in *; lia).
+    replace (off + batch - 18446744073709551616 <? off) with true by (symmetry; apply Z.ltb_lt; unfold int_max in *; lia).
+    rewrite orb_true_r.
+    replace (off + batch >=? len) with true by (symmetry; apply Z.geb_le; lia). reflexivity.
+Qed.
+
+Lemma sweep_window_unbounded len off batch :
+  len <= int_max -> off <= int_max -> batch <= int_max ->
+  sweep_window len off batch = Comdex.Model.Liquidation.sweep_window len off batch.
+Proof.
+  intros Hl Ho Hb. unfold sweep_window, Comdex.Model.Liquidation.sweep_window.
+  rewrite (slice_bounds_unbounded len off batch Hl Ho Hb).
+  rewrite (slice_bounds_unbounded len 0 batch Hl) by (unfold int_max; lia || assumption).
+  destruct (Comdex.Model.Liquidation.slice_bounds len off batch) as [s e]. reflexivity.
 Qed.
 
 (* range index: x[i] for i < len x *)
